@@ -1,0 +1,7 @@
+//go:build !verif
+
+package mocrelay
+
+// verifPoint marks a place where the verification build (-tags verif) can inject
+// a delay or count a visit. Without the tag it is a no-op that is inlined away.
+func verifPoint(string) {}
